@@ -390,7 +390,7 @@ def main(tier):
     rep = Report("C05", tier, "model_checking")
     quick = tier == "quick"
     variant = "ossl-asan" if quick else "ossl-plain"
-    deadline = time.time() + (170 if quick else 1700)
+    deadline = time.time() + (600 if quick else 1700)
     kw = dict() if quick else dict(ladder=tuple(LADDER_FULL), max_objs=3)
     depth = 3 if quick else 4
     counters = {}
